@@ -22,6 +22,8 @@ is accepted (EITHER: SystemError with that text, or any other exception), every 
 """
 import dataclasses
 import gc
+import os
+import tempfile
 import pickle
 import re
 
@@ -557,7 +559,59 @@ def life_pickle_copy(ts):
     return out
 
 
-LIFETIMES = {"tree-arrays": life_tree_arrays, "ts-columns": life_ts_columns, "tree-of-dropped-ts": life_tree_of_dropped_ts,
+def life_failed_load(ts):
+    """A low-level object whose (re)load FAILED is used afterwards: it must report 'not initialised' (or still hold its
+    previous valid content), never a half-built state."""
+    out = []
+    bad = ts.dump_tables()
+    if bad.edges.num_rows:
+        bad.edges.parent = bad.edges.child.copy()       # parent == child: refused by tsk_treeseq_init
+    else:
+        bad.sequence_length = -1.0
+    fd, path = tempfile.mkstemp(suffix=".junk")
+    os.write(fd, b"\x89KAS\r\n\x1a\n" + b"\0" * 100)
+    os.close(fd)
+    try:
+        for prior in (False, True):
+            for how in ("load_tables", "load_tables+index", "load-file"):
+                ll = _tskit.TreeSequence()
+                if prior:
+                    ll.load_tables(ts.dump_tables()._ll_tables, build_indexes=True)
+                try:
+                    if how == "load-file":
+                        with open(path, "rb") as f:
+                            ll.load(f)
+                    else:
+                        ll.load_tables(bad._ll_tables, build_indexes=how.endswith("index"))
+                    out.append("accepted")
+                except Exception as e:  # noqa: BLE001 - the refusal is expected; what follows is the point
+                    out.append(type(e).__name__)
+                out += seq(ll.get_num_nodes, ll.get_breakpoints, ll.get_sequence_length, lambda: ll.get_node(0), ll.get_samples,
+                           lambda: _tskit.Tree(ll), lambda: ll.dump_tables(tskit.TableCollection(1)._ll_tables),
+                           lambda: ll.get_num_trees(), lambda: _tskit.Variant(ll), lambda: _tskit.LdCalculator(ll))
+                del ll
+                _drop()
+        # the same for a low-level TableCollection whose load failed
+        for prior in (False, True):
+            lt = _tskit.TableCollection(1.0)
+            if prior:
+                lt.fromdict(ts.dump_tables().asdict())
+            try:
+                with open(path, "rb") as f:
+                    lt.load(f)
+                out.append("accepted")
+            except Exception as e:  # noqa: BLE001
+                out.append(type(e).__name__)
+            out += seq(lambda: lt.sequence_length, lambda: lt.nodes.num_rows, lambda: lt.asdict(), lambda: lt.build_index(),
+                       lambda: lt.sort(), lambda: lt.has_index())
+            del lt
+            _drop()
+    finally:
+        os.unlink(path)
+    return out
+
+
+LIFETIMES = {"failed-load": life_failed_load, "tree-arrays": life_tree_arrays, "ts-columns": life_ts_columns, "tree-of-dropped-ts": life_tree_of_dropped_ts,
              "variant-views": life_variant_views, "ibd": life_ibd, "tables-of-dropped-collection": life_tables_of_dropped_collection,
              "self-alias": life_self_alias, "pickle-copy": life_pickle_copy}
 
@@ -852,10 +906,10 @@ def register(ns):
     C("LdCalculator/infinite-sites", "ts", lambda ts, a: (lambda ld: (ld.r2(a[0], a[1]), ld.get_r2(a[1], a[0]), ld.r2_array(a[0], direction=a[2], max_mutations=a[3], max_distance=a[4]), ld.r2_array(a[1], direction=a[2], max_sites=a[3]),
                                                                      ld.get_r2_array(a[0], direction=tskit.REVERSE), ld.r2_matrix(), ld.get_r2_matrix()))(tskit.LdCalculator(ld_ts(ts))),
       [ld_site, ld_site, choice("direction", [tskit.FORWARD, tskit.REVERSE, 0, 2, -2, None, "a"]),
-       choice("max_mutations", [None, -2, -1, 0, 1, LD_NSITES, LD_NSITES + 1, 2 ** 31 - 1, 2 ** 31, "a"]), ns["FLOATANY"]])
+       choice("max_mutations", [None, -2, -1, 0, 1, LD_NSITES, LD_NSITES + 1, 2 ** 31 - 1, 2 ** 31, 2 ** 60, 2 ** 61, 2 ** 61 + 1, 2 ** 62, 2 ** 63 - 1, "a"]), ns["FLOATANY"]])
     C("lowlevel.LdCalculator/infinite-sites", "ts", lambda ts, a: (lambda ld: (ld.get_r2(a[0], a[1]), ld.get_r2_array(a[0], direction=a[2], max_sites=a[3]), ld.get_r2_array(a[1], a[2], a[3], 0.0)))(
                                                                        _tskit.LdCalculator(ld_ts(ts).ll_tree_sequence)),
-      [ld_site, ld_site, choice("direction", [tskit.FORWARD, tskit.REVERSE, 0, 2]), choice("max_sites", [LD_NSITES, 0, 1, LD_NSITES - 1, LD_NSITES + 1, 100, -1, 2 ** 31])])
+      [ld_site, ld_site, choice("direction", [tskit.FORWARD, tskit.REVERSE, 0, 2]), choice("max_sites", [LD_NSITES, 0, 1, LD_NSITES - 1, LD_NSITES + 1, 100, -1, 2 ** 31, 2 ** 60, 2 ** 61, 2 ** 61 + 1, 2 ** 62, 2 ** 63 - 1])])
 
 
 # ----------------------------------------------------------------------------- more table states (program workload)
